@@ -1,5 +1,6 @@
 SPECIFICATION MCSpec
 CONSTANT L = 3
+CONSTANT Mode = "main"
 VIEW View
 INVARIANT Ok
 INVARIANT Inv
